@@ -99,6 +99,32 @@ def _dur_lattice(tier, seed):
     return cases
 
 
+# runs through the user-facing entry point ``resonaate.runResonaate(init_file, sim_time_hours=h)`` (what the
+# ``resonaate -t <hours>`` command calls): hour values as decimal strings (the exact duration is Fraction(h)*3600 s,
+# mostly NOT representable as a binary float), each against several steps; includes exact multiples of the step
+ENTRY_HOURS_Q = ["0.1", "0.3", "0.7", "1.1", "2.3", "4.1", "0.35", "1", "0.05"]
+ENTRY_STEPS_Q = [60, 360, 450]
+ENTRY_STARTS = [datetime(2021, 3, 30, 16, 0, 7), datetime(2019, 12, 31, 23, 59, 29)]
+
+
+def _entry_lattice(tier, seed):
+    hours = list(ENTRY_HOURS_Q)
+    steps = list(ENTRY_STEPS_Q)
+    if tier == "thorough":
+        hours += ["0.2", "0.6", "0.9", "1.3", "1.7", "2.1", "3.3", "5.1", "6.9", "8.2", "0.15", "0.45", "24.1", "26.3"]
+        steps += [36, 300, 3600]
+    cases = []
+    for i, h in enumerate(hours):
+        for step in steps:
+            from fractions import Fraction  # noqa: PLC0415
+
+            dur = Fraction(h) * 3600
+            if dur // step < 1 or dur // step > 420:
+                continue
+            cases.append((ENTRY_STARTS[(i + seed) % len(ENTRY_STARTS)], step, h))
+    return cases
+
+
 def items(tier, seed):
     out = []
     for d in _days(tier, seed):
@@ -111,6 +137,8 @@ def items(tier, seed):
     out.append(("calendar_fields", seed))
     for chunk in fw.chunked(_dur_lattice(tier, seed), 6):
         out.append(("duration", [(st.isoformat(), step, d, mode) for st, step, d, mode in chunk]))
+    for chunk in fw.chunked(_entry_lattice(tier, seed), 4):
+        out.append(("entry", [(st.isoformat(), step, h) for st, step, h in chunk]))
     return out
 
 
@@ -120,6 +148,8 @@ def bounds(tier, seed):
         "all_days": "1901-01-01..2099-12-31 at 00:00:00, 11:59:59, 12:00:00, 23:59:59",
         "duration_cases": len(_dur_lattice(tier, seed)),
         "duration_steps": sorted({c[1] for c in _dur_lattice(tier, seed)}),
+        "entry_point_cases": len(_entry_lattice(tier, seed)),
+        "entry_point_hours": sorted({c[2] for c in _entry_lattice(tier, seed)}, key=float),
     }
 
 
@@ -353,6 +383,106 @@ def _run_duration(res, item):
         res.traces += 1
 
 
+def _run_entry(res, item):
+    """Drive the real entry point: config files on disk, file database, ``runResonaate(path, sim_time_hours=h)``."""
+    import json  # noqa: PLC0415
+    import shutil  # noqa: PLC0415
+    import sqlite3  # noqa: PLC0415
+    import tempfile  # noqa: PLC0415
+    from fractions import Fraction  # noqa: PLC0415
+
+    import resonaate  # noqa: PLC0415
+    from resonaate.scenario.scenario import Scenario  # noqa: PLC0415
+
+    for iso, step, hours in item[1]:
+        st = datetime.fromisoformat(iso)
+        dur = Fraction(hours) * 3600
+        expected_steps = int(dur // step)
+        cfg = scen.config(
+            st,
+            2,  # the configured span is NOT what bounds the run: the requested hours are
+            [scen.engine(1, [scen.target_eci(10001, *scen.LEO_A)], [scen.ground_sensor(20001, 10.0, 20.0)])],
+            physics=step,
+            truth_only=True,
+        )
+        tmp = tempfile.mkdtemp(prefix="verif_c05_")
+        calls = {"n": 0}
+        orig = Scenario.stepForward
+
+        def counted(self, orig=orig, calls=calls):
+            calls["n"] += 1
+            return orig(self)
+
+        case = {"start": iso, "start_second": st.second, "step": step, "hours": hours, "D_seconds": str(dur)}
+        err = None
+        got_iso, tjd = [], []
+        try:
+            main = {k: v for k, v in cfg.items() if k != "engines"}
+            main["engines_files"] = []
+            for i, eng in enumerate(cfg["engines"]):
+                e = {k: v for k, v in eng.items() if k not in ("targets", "sensors")}
+                e["targets_file"], e["sensors_file"] = f"t{i}.json", f"s{i}.json"
+                json.dump(eng["targets"], open(f"{tmp}/t{i}.json", "w"))
+                json.dump(eng["sensors"], open(f"{tmp}/s{i}.json", "w"))
+                json.dump(e, open(f"{tmp}/e{i}.json", "w"))
+                main["engines_files"].append(f"e{i}.json")
+            json.dump(main, open(f"{tmp}/main.json", "w"))
+            scen.fresh()
+            Scenario.stepForward = counted
+            try:
+                resonaate.runResonaate(f"{tmp}/main.json", internal_db_path=f"{tmp}/out.sqlite3", sim_time_hours=float(hours))
+            except Exception as exc:  # noqa: BLE001
+                err = f"{type(exc).__name__}: {exc}"
+            finally:
+                Scenario.stepForward = orig
+            scen.fresh()  # disposes the cached file-database interface
+            con = sqlite3.connect(f"{tmp}/out.sqlite3")
+            got_iso = [r[0] for r in con.execute("SELECT timestampISO FROM epochs ORDER BY julian_date")]
+            tjd = [r[0] for r in con.execute("SELECT julian_date FROM truth_ephemerides WHERE agent_id=10001 ORDER BY julian_date")]
+            con.close()
+        finally:
+            shutil.rmtree(tmp, ignore_errors=True)
+        nontriv = Fraction(float(hours)) != Fraction(hours) or dur % step != 0
+        res.case(
+            "entry/steps",
+            case,
+            err is None and calls["n"] == expected_steps,
+            nontrivial=nontriv,
+            signature=f"C05/entry/steps/{'short' if calls['n'] < expected_steps else 'long' if calls['n'] > expected_steps else 'error'}",
+            observed={"stepForward_calls": calls["n"], "error": err},
+            expected={"steps": expected_steps},
+            outcome=f"entry_steps_minus_expected={calls['n'] - expected_steps}",
+            item=("entry", [(iso, step, hours)]),
+        )
+        want_jd = [_ref_jd(st + timedelta(seconds=k * step)) for k in range(expected_steps + 1)]
+        ok_truth = len(tjd) == len(want_jd) and all(abs(a - b) <= 2e-9 for a, b in zip(tjd, want_jd))
+        res.case(
+            "entry/truth_rows",
+            case,
+            ok_truth,
+            nontrivial=nontriv,
+            signature=f"C05/entry/truth_rows/{'fewer' if len(tjd) < len(want_jd) else 'more' if len(tjd) > len(want_jd) else 'shifted'}",
+            observed={"rows": len(tjd)},
+            expected={"rows": len(want_jd)},
+            item=("entry", [(iso, step, hours)]),
+        )
+        want_iso = [(st + timedelta(seconds=k * step)).isoformat(timespec="microseconds") for k in range(expected_steps + 1)]
+        res.case(
+            "entry/epochs",
+            case,
+            got_iso[: len(want_iso)] == want_iso and len(got_iso) >= len(want_iso),
+            nontrivial=nontriv,
+            signature="C05/entry/epochs",
+            observed=got_iso[:3] + got_iso[-2:],
+            expected=want_iso[:3] + want_iso[-2:],
+            item=("entry", [(iso, step, hours)]),
+        )
+        res.observe(calls["n"], got_iso, tjd)
+        res.states += calls["n"] + 1
+        res.transitions += calls["n"]
+        res.traces += 1
+
+
 def run_item(item):
     res = fw.Result()
     kind = item[0]
@@ -366,6 +496,8 @@ def run_item(item):
         _run_calendar_fields(res, item)
     elif kind == "duration":
         _run_duration(res, item)
+    elif kind == "entry":
+        _run_entry(res, item)
     else:
         raise ValueError(kind)
     return res
